@@ -112,6 +112,10 @@ def run_kpasswd(run, quick=True):
                 raise vlib.Inconclusive("KPasswd %s: expected violation=%s, got %s\n%s" % (cfg, expect, res.violation, res.out[-2000:]))
             if not expect:
                 run.add_model(res)
+        proved, nobl, pout = vlib.tlapm(wd, "KPasswdProof", timeout=900)
+        if not proved:
+            raise vlib.Inconclusive("TLAPS does not prove KPasswdProof (Spec => []SuccessIsAuthentic, unbounded core):\n" + pout)
+        info["tlaps"] = {"module": "KPasswdProof", "theorem": "Spec => []SuccessIsAuthentic (unbounded requests, subkeys, replies)", "obligations_proved": nobl}
         trace = os.path.join(wd, "trace.ndjson")
         import mitcross
         mexe = mitcross.build_mitref()
